@@ -129,9 +129,16 @@ def _run_case(idx, c):
         f = flavour(ver, "srp_sha")
     elif site == "binder":
         f = flavour(4, "tls13", resume="psk", tickets13=1)
+    elif site == "checker" and cls == "absent" and role == "c":
+        f = flavour(ver, "dh_anon")
+    elif site == "checker" and role == "s":
+        f = flavour(ver, "tls13" if ver == 4 else "ecdhe_rsa", reqCert="nocert" if cls == "absent" else "cert")
     else:
         f = flavour(ver, "tls13" if ver == 4 else "ecdhe_rsa")
-    sc = Scenario(f, "c05-%d" % idx)
+    if site == "binder" and cls == "stale":
+        # the ticket is made for a client that authenticated with a certificate, under a SHA-256 suite
+        f = flavour(4, "tls13", resume="psk", tickets13=1, reqCert="cert")
+    sc = Scenario(f, "c05-%d" % idx, cextra=dict(cipherNames=["aes128gcm"]) if (site == "binder" and cls == "stale") else None)
     if site in ("phacv", "phafin"):
         # the client holds a key pair although the server does not ask during the handshake
         cch, ck = cred(CLT_CRED[kt if kt != "-" else "rsa"])
@@ -164,10 +171,39 @@ def _run_case(idx, c):
         state["hit"] = 1
     if site == "checker":
         fp = "00" * 20 if cls == "wrongsecret" else None
-        if fp is None:
-            from tlslite.api import X509CertChain
-            fp = b["skw"]["certChain"].getFingerprint()
-        b["ckw"]["checker"] = Checker(x509Fingerprint=fp)
+        if role == "c":
+            if fp is None:
+                fp = cred("rsa")[0].getFingerprint()
+            b["ckw"]["checker"] = Checker(x509Fingerprint=fp)
+        else:
+            if fp is None:
+                fp = cred("c_rsa")[0].getFingerprint()
+            b["skw"]["checker"] = Checker(x509Fingerprint=fp)
+        state["hit"] = 1
+    if site == "binder" and cls == "stale":
+        # forged session: the genuine ticket bytes, no knowledge of the resumption secret, SHA-384 suite only;
+        # no client key pair in this connection
+        from tlslite.session import Session
+        from tlslite.messages import NewSessionTicket
+        from tlslite.constants import CipherSuite
+        import time as _t
+        real = sc.session
+        if real is None or not real.tickets:
+            return {"skip": "no ticket", "case": c}
+        tk = real.tickets[0]
+        fake = NewSessionTicket().create(7200, 0, bytearray(b"\x00"), bytearray(tk.ticket), [])
+        fake.time = _t.time()
+        sess = Session()
+        sess.resumable = True
+        sess.cipherSuite = CipherSuite.TLS_AES_256_GCM_SHA384
+        sess.resumptionMasterSecret = bytearray(b"\xaa" * 48)
+        sess.tickets = [fake]
+        sess.srpUsername = None
+        sess.serverName = real.serverName
+        b["ckw"]["session"] = sess
+        b["ckw"].pop("certChain", None)
+        b["ckw"].pop("privateKey", None)
+        b["ckw"]["settings"] = settings(minVersion=(3, 4), maxVersion=(3, 4), cipherNames=["aes256gcm"])
         state["hit"] = 1
     # ---- message-level corruptions on the prover's send path
     def mutate(msg):
@@ -234,6 +270,11 @@ def _run_case(idx, c):
                         and p.s.session.clientCertChain is not chain_before)
     elif site == "srp":
         recorded = bool(completed and sess is not None and sess.srpUsername)
+    elif site == "binder" and cls == "stale":
+        # a full handshake is a legitimate outcome; the identity named by the ticket must not be attributed
+        completed = bool(so.ok)
+        recorded = bool(so.ok and (_resumed_on_wire(p) or (p.s.session is not None and p.s.session.clientCertChain is not None
+                                                           and p.s.session.clientCertChain.getNumCerts() > 0)))
     elif site == "binder":
         recorded = bool(completed and so.ok and not any(True for _ in ()) and _resumed_on_wire(p))
         completed = recorded     # a rejected binder must not resume (a failed handshake is also a rejection)
